@@ -413,6 +413,13 @@ def run(ctx):
                   'termination device')
     termination_devices(ctx, r7)
 
+    # ---- R9 which joins are refreshed -------------------------------------------
+    r9 = ctx.rule('R9', 'completing a task refreshes every join that can be '
+                  'affected, through joins that were never created',
+                  'GD+coverage')
+    shared.affected_walk_stops(ctx, r9)
+    shared.affected_tasks_cover_completed(ctx, r9)
+
 
 def _join_exits_pass(cfg, f, sd, wait_node):
     """Every normal exit that skips the wait store is dominated by a test
